@@ -130,3 +130,21 @@ Proof.
   split; [vm_compute; repeat constructor; intros []|]. split; [exact mA_inv|].
   vm_compute. repeat split.
 Qed.
+
+(* the hypotheses of preferred_title are satisfiable (A is the preferred name of X, declared through a chain of three) *)
+Example preferred_title_hypotheses :
+  In "A" (apref am3) /\ aget (amap am3) "A" = "X" /\ ~ In "X" (akeys (amap am3)) /\
+  rename_columns am3 ["X"; "Y"; "Z"] = Ret ["A"; "y"; "Z"].
+Proof.
+  split; [left; reflexivity|]. split; [vm_compute; reflexivity|]. split; [|vm_compute; reflexivity].
+  vm_compute. intros C. repeat (destruct C as [C|C]; [discriminate C|]). exact C.
+Qed.
+
+(* shorten_acyclic_unbounded: every chain of AL3 reaches a name that is no alias *)
+Example chain3_leaves :
+  forall k, In k (akeys (drop_self AL3)) -> exists n, ~ In (follow n (drop_self AL3) k) (akeys (drop_self AL3)).
+Proof.
+  intros k H. exists 3. vm_compute in H.
+  repeat (destruct H as [<-|H]; [vm_compute; intros C; repeat (destruct C as [C|C]; [discriminate C|]); exact C|]).
+  contradiction.
+Qed.
